@@ -289,6 +289,8 @@ def families(ctx):
     for mk in ARMS:
         A = mk()
         out.append((A.name, (lambda A=A: run_arm(ctx, A))))
+    out.append(('evaluator eval_in', lambda: eval_in_kernel(ctx)))
+    out.append(('Set fast/authoritative agreement', lambda: set_kernels(ctx)))
     return out
 
 
@@ -801,3 +803,204 @@ def arm_tag(opname):
 
 
 ARMS += [arm_in, (lambda: arm_tag('GetTag')), (lambda: arm_tag('HasTag'))]
+
+
+# ---------------------------------------------------------------------------------------------- eval_in (hierarchy membership test)
+
+def eval_in_kernel(ctx):
+    """`uid1 in arg2`: reflexive, or uid1's entity is a descendant of some member; arg2 an entity literal or a set of entities (bound: <= 2
+    members), anything else a type error.  UID equality and Entity::is_descendant_of are free booleans (the closure they read is C04)."""
+    P = ctx.prog('core')
+    f = P.method('evaluator.rs', 'eval_in', nargs=4)
+    ctx.use(f)
+    for LEN in (0, 1, 2):
+        ex = ctx.new_exec('core')
+        from .c02 import install_value_stubs, as_type_error
+        from .common import SymValue
+        install_value_stubs(ex)
+        arg2 = SymValue(ex, 'arg2')
+        HAS, SETERR = z3.Bool('entity_in_store'), z3.Bool('set_has_non_entity')
+        EQ = [z3.Bool(f'same_uid_{i}') for i in range(2)]
+        DESC = [z3.Bool(f'descendant_of_{i}') for i in range(2)]
+        uids = [Opaque('ast::entity::EntityUID', f'member{i}') for i in range(2)]
+        uid1, ent = Opaque('ast::entity::EntityUID', 'uid1'), Opaque('ast::entity::Entity', 'entity1')
+        lit_uid = ex.opaque_field(arg2.lit, 'EntityUID', 0, 'Arc<ast::entity::EntityUID>')
+        seterr = Opaque('EvaluationError', 'non-entity member')
+
+        def idx(ex_, st, v):
+            n = 0
+            while isinstance(v, Ref) and n < 6:
+                v = ex_.read(st, v.fid, v.place)
+                n += 1
+            if getattr(v, 'id', None) == lit_uid.id or (('deref', lit_uid.id) in ex_.memo and st.frames[0].get(ex_.memo[('deref', lit_uid.id)]) is v):
+                return 0
+            for i, u in enumerate(uids):
+                if getattr(v, 'id', None) == u.id:
+                    return i
+            raise NotEncoded(f'unknown uid {v!r}')
+        ex.stub(r'get_as_entity_set$', lambda ex_, st, c, A, LEN=LEN: [([z3.Not(SETERR)], ok(Agg('struct', '~vec', None, [ex_.new_cell(st, uids[i], f'm{i}') for i in range(LEN)]))), ([SETERR], err(seterr))],
+                f'Value::get_as_entity_set: {LEN} entity members, or a type error for a non-entity member')
+        ex.stub(r'<Arc<.*EntityUID> as AsRef<.*>>::as_ref$', lambda ex_, st, c, A: A[0], 'Arc<EntityUID>::as_ref')
+        ex.stub(r'<&.*EntityUID as PartialEq>::eq$', lambda ex_, st, c, A: BoolV(EQ[idx(ex_, st, A[1])]), 'EntityUID equality with member i: free boolean')
+        ex.stub(r'Entity::is_descendant_of$', lambda ex_, st, c, A: BoolV(DESC[idx(ex_, st, A[1])]), 'Entity::is_descendant_of(member i): free boolean (the closure is C04)')
+        ex.stub(r'<LazyLock<.*Name> as Deref>::deref$', lambda ex_, st, c, A: ex_.new_cell(st, Opaque('ast::name::Name', 'static name'), 'name'), 'static Name (opaque)')
+        ex.stub(r'Type::entity_type$', lambda ex_, st, c, A: Agg('variant', 'ast::types::Type', 'Entity', [A[0]]), 'Type::entity_type')
+        heap = {'EV': Opaque('evaluator::Evaluator', 'eval'), 'U': uid1, 'EN': ent, 'A2': arg2.v}
+        for has in (False, True):
+            outs = ex.run(f, [Ref(0, ('local', 'EV')), Ref(0, ('local', 'U')), some(Ref(0, ('local', 'EN'))) if has else none(), Ref(0, ('local', 'A2'))], heap=heap)
+            ctx.absorb(ex)
+            ctx.panic_summary(f'eval_in[{LEN} members, entity {"present" if has else "absent"}]', outs, ex)
+            k = arg2.code
+            member = lambda i: z3.Or(EQ[i], z3.And(z3.BoolVal(has), DESC[i]))
+            for i, o in enumerate(outs):
+                if o.kind != 'ret':
+                    continue
+                v = o.val
+                name = f'eval_in[{LEN} members, entity {"present" if has else "absent"}]/path{i}'
+                if v.variant == 'Ok':
+                    try:
+                        b = v.fields[0].fields[0].fields[0].fields[0].fields[0].t
+                    except (AttributeError, IndexError):
+                        raise NotEncoded(f'eval_in result {v!r}')
+                    claim = z3.Or(z3.And(k == 3, b == member(0)), z3.And(k == 4, z3.Not(SETERR), b == z3.Or([member(j) for j in range(LEN)] or [z3.BoolVal(False)])))
+                else:
+                    e = v.fields[0]
+                    if getattr(e, 'id', None) == seterr.id:
+                        claim = z3.And(k == 4, SETERR)
+                    elif as_type_error(e) is not None:
+                        claim = z3.And(k != 3, k != 4, z3.BoolVal(getattr(as_type_error(e)[1], 'id', None) == arg2.v.id))
+                    else:
+                        claim = z3.BoolVal(False)
+
+                def on_sat(m, has=has):
+                    kk = m.eval(k, model_completion=True).as_long()
+                    if kk == 3:
+                        text = 'User::"alice" in User::"alice"' if z3.is_true(m.eval(EQ[0], model_completion=True)) else ('User::"alice" in Group::"g"' if z3.is_true(m.eval(DESC[0], model_completion=True)) else 'User::"alice" in Group::"h"')
+                        want = ('bool', 'alice"' in text.split(' in ')[1] or ('Group::"g"' in text and has))
+                    elif kk == 4:
+                        text, want = 'User::"alice" in [Group::"h", Group::"g", 1]', ('type_error', 'entity', 1)
+                    else:
+                        text, want = 'User::"alice" in 5', ('type_error', 'advice', 1)
+                    got = native_outcome(ctx, text, STORE_WITH if has else None)
+                    if tuple(got[:len(want)]) != tuple(want):
+                        return ctx.violation(name, 'evaluator.rs: eval_in', f'`{text}`: real evaluator returns {got}, the language semantics prescribes {want}', {'op': 'peval', 'expr': text, 'entities': STORE_WITH if has else None})
+                    return ctx.mismatch(name, f'counterexample in the abstract model, but the real evaluator answers {got} as prescribed for `{text}`')
+                ctx.decide(name, o.pc + [z3.Not(claim)], ex=ex, on_sat=on_sat, sample={'path_condition': [str(c)[:60] for c in o.pc][:6], 'result': repr(v)[:100]} if i < 2 and LEN == 2 else None)
+            rets = [o for o in outs if o.kind == 'ret']
+            ctx.decide(f'eval_in[{LEN} members, entity {"present" if has else "absent"}]/paths-cover', [z3.Not(z3.Or([z3.And(o.pc) if o.pc else z3.BoolVal(True) for o in rets]))], ex=ex)
+    ctx.decide('eval_in/witness', [z3.BoolVal(True)], expect='sat')
+    ctx.bounds.append('eval_in: right-hand side an entity literal or a set with <= 2 entity members (loop unrolled by path)')
+
+
+# ---------------------------------------------------------------------------------------------- Set: fast path == authoritative answer
+
+def set_kernels(ctx):
+    """Set::{contains, is_subset, is_disjoint, eq}: whatever representation (all-literal `fast` HashSet present or not) each operand has, the answer is
+    the mathematical one over the authoritative elements.  Sets are SMT arrays over an uninterpreted element sort; representation invariant: `fast`
+    is Some exactly when every element is a literal, and then holds the same elements."""
+    from ..executor import ASet, SymV
+    P = ctx.prog('core')
+    V = z3.DeclareSort('VAL')
+    is_lit = z3.Function('is_lit', V, z3.BoolSort())
+    x = z3.Const('x', V)
+
+    def mkset(name, has_fast):
+        auth = z3.Array(f'{name}_auth', V, z3.BoolSort())
+        w = z3.Const(f'{name}_nonlit_witness', V)
+        if has_fast:
+            facts = [z3.ForAll([x], z3.Implies(z3.Select(auth, x), is_lit(x)))]
+            fast = some(Agg('struct', 'Arc', None, [ASet(auth)], ('inner',)))
+        else:
+            facts = [z3.Select(auth, w), z3.Not(is_lit(w))]
+            fast = none()
+        return Agg('struct', 'ast::value::Set', None, [Agg('struct', 'Arc', None, [ASet(auth)], ('inner',)), fast], ('authoritative', 'fast')), auth, facts
+
+    def deref(ex, st, v):
+        n = 0
+        while isinstance(v, Ref) and n < 6:
+            v = ex.read(st, v.fid, v.place)
+            n += 1
+        if isinstance(v, Agg) and v.name == 'Arc':
+            v = v.fields[0]
+        return v
+
+    def install(ex, values):
+        def two(fn):
+            def f(ex_, st, c, A):
+                a, b = deref(ex_, st, A[0]), deref(ex_, st, A[1])
+                if not (isinstance(a, ASet) and isinstance(b, ASet)):
+                    raise NotEncoded(f'{c} on {a!r}, {b!r}')
+                if fn == 'is_subset':
+                    return BoolV(z3.ForAll([x], z3.Implies(z3.Select(a.mem, x), z3.Select(b.mem, x))))
+                if fn == 'is_disjoint':
+                    return BoolV(z3.ForAll([x], z3.Not(z3.And(z3.Select(a.mem, x), z3.Select(b.mem, x)))))
+                return BoolV(a.mem == b.mem)
+            return f
+        for fn in ('is_subset', 'is_disjoint'):
+            ex.stub(r'(HashSet|BTreeSet)::<.*>::' + fn + '(::<.*>)?$', two(fn), f'std set {fn} (mathematical definition over arrays)')
+        ex.stub(r'<&*(Arc<)?(std::collections::)?(HashSet|BTreeSet)<.*> as PartialEq(<.*>)?>::eq$', two('eq'), 'std set equality (extensional)')
+
+        def contains(ex_, st, c, A):
+            s = deref(ex_, st, A[0])
+            v = deref(ex_, st, A[1])
+            key = values.get(id(v)) if not isinstance(v, SymV) else v.t
+            if key is None or not isinstance(s, ASet):
+                raise NotEncoded(f'contains({s!r}, {v!r})')
+            return BoolV(z3.Select(s.mem, key))
+        ex.stub(r'(HashSet|BTreeSet)::<.*>::contains::<', contains, 'std set contains (array select)')
+        ex.stub(r'<Arc<.*(HashSet|BTreeSet)<.*>> as AsRef<.*>>::as_ref$', lambda ex_, st, c, A: A[0], 'Arc::as_ref')
+
+    for meth in ('is_subset', 'is_disjoint', 'eq'):
+        f = P.method('ast/value.rs', meth, nargs=2, arg0=r'&ast::value::Set$')
+        ctx.use(f)
+        for fa in (True, False):
+            for fb in (True, False):
+                ex = ctx.new_exec('core')
+                install(ex, {})
+                A_, autha, fa_ = mkset('a', fa)
+                B_, authb, fb_ = mkset('b', fb)
+                outs = ex.run(f, [Ref(0, ('local', 'A')), Ref(0, ('local', 'B'))], heap={'A': A_, 'B': B_})
+                ctx.absorb(ex)
+                name = f'Set::{meth}[self {"all-literal" if fa else "has non-literal"}, other {"all-literal" if fb else "has non-literal"}]'
+                ctx.panic_summary(name, outs, ex, fa_ + fb_)
+                truth = {'is_subset': z3.ForAll([x], z3.Implies(z3.Select(autha, x), z3.Select(authb, x))),
+                         'is_disjoint': z3.ForAll([x], z3.Not(z3.And(z3.Select(autha, x), z3.Select(authb, x)))), 'eq': autha == authb}[meth]
+                for i, o in enumerate(outs):
+                    if o.kind != 'ret':
+                        continue
+                    def on_sat(m, meth=meth, fa=fa, fb=fb, name=name):
+                        a = '[1, {a: 1}]' if not fa else '[1, 2]'
+                        b = '[1, {b: 1}]' if not fb else '[1]'
+                        text, want = {'is_subset': (f'({a}).containsAll({b})', ('bool', fb and True)), 'is_disjoint': (f'({a}).containsAny({b})', ('bool', True)), 'eq': (f'({a}) == ({b})', ('bool', False))}[meth]
+                        got = native_outcome(ctx, text)
+                        if tuple(got[:2]) != tuple(want):
+                            return ctx.violation(name, 'ast/value.rs: Set fast/authoritative agreement', f'`{text}`: real evaluator returns {got}, sets semantics prescribes {want}', {'op': 'peval', 'expr': text})
+                        return ctx.mismatch(name, f'counterexample in the abstract set model, but `{text}` evaluates to {got} as prescribed')
+                    ctx.decide(f'{name}/path{i}', fa_ + fb_ + o.pc + [z3.Not(o.val.t == truth)], ex=ex, on_sat=on_sat,
+                               sample={'path_condition': [str(c)[:80] for c in o.pc][:3], 'result': str(o.val.t)[:120]} if (fa, fb) == (True, False) else None)
+    # contains(value)
+    f = P.method('ast/value.rs', 'contains', nargs=2, arg0=r'&ast::value::Set$')
+    ctx.use(f)
+    for fa in (True, False):
+        for vlit in (True, False):
+            ex = ctx.new_exec('core')
+            values = {}
+            install(ex, values)
+            A_, autha, fa_ = mkset('a', fa)
+            v = z3.Const('v', V)
+            if vlit:
+                lit = SymV('VAL', v)
+                val = Agg('struct', 'ast::value::Value', None, [Agg('variant', 'ast::value::ValueKind', 'Lit', [lit]), none()], ('value', 'loc'))
+                facts = [is_lit(v)]
+            else:
+                val = Agg('struct', 'ast::value::Value', None, [Agg('variant', 'ast::value::ValueKind', 'Record', [Opaque('Arc<BTreeMap>', 'record')]), none()], ('value', 'loc'))
+                facts = [z3.Not(is_lit(v))]
+            values[id(val)] = v
+            outs = ex.run(f, [Ref(0, ('local', 'A')), Ref(0, ('local', 'X'))], heap={'A': A_, 'X': val})
+            ctx.absorb(ex)
+            name = f'Set::contains[set {"all-literal" if fa else "has non-literal"}, value {"literal" if vlit else "non-literal"}]'
+            ctx.panic_summary(name, outs, ex, fa_ + facts)
+            for i, o in enumerate(outs):
+                if o.kind == 'ret':
+                    ctx.decide(f'{name}/path{i}', fa_ + facts + o.pc + [z3.Not(o.val.t == z3.Select(autha, v))], ex=ex)
+    ctx.decide('Set kernels/witness', [z3.BoolVal(True)], expect='sat')
